@@ -21,6 +21,15 @@ Correspondence on random respondent-level surveys (harness/props/cube_util.py):
       base that occurs (all three directions; strand bases) and _Strand.min_base_size_mask /
       MinBaseSizeMask.{row,column,table}_mask are compared with the model and with
       `unweighted base < threshold` computed from the respondents.
+  (e) BASE BLOCKS (Model/BaseBlocks.v + row_base_blocks / col_base_blocks / table_base_blocks of
+      Model/Proportions.v, the definitions the C02_gen_<Measure> obligations tie to the text of
+      matrix/measure.py): for a stream of CAT / MR slices and CAT strands with subtotal insertions
+      - sums AND differences - the model's subtotal columns, subtotal rows and intersections of the
+      six base matrices, computed in Coq from the BASE block the implementation reports and the
+      (addend, subtrahend) offsets of its subtotals, are compared cell by cell with the
+      implementation's blocks (NaN where a difference crosses the additive direction), together
+      with the subtotal part of rows_margin / rows_base / columns_margin / columns_base when these
+      are 1-D and the subtotal values of the strand's weighted / unweighted bases.
 """
 import json
 import math
@@ -281,6 +290,179 @@ def run_subtotal_case(case):
                         fails.append({"what": pub + ":subtotal-intersection", "part": k,
                                       "impl": blk[1][1][si][sj], "expected": exp, "oracle": "survey"})
     return fails, n_sub
+
+
+# ------------------------------------------------------------------------------------
+# (e) the blocks of the base measures: model (Model/BaseBlocks.v) vs implementation
+# ------------------------------------------------------------------------------------
+
+BLOCK_IMPORTS = """From Coq Require Import QArith ZArith List Bool.
+From CC Require Import Base.XQ Base.Render Base.ListX Model.Subtotals Model.Proportions Model.BaseBlocks.
+Import ListNotations."""
+BLOCK_MEASURES = {"w": ("row_weighted_bases", "column_weighted_bases", "table_weighted_bases",
+                        "rows_margin", "columns_margin"),
+                  "u": ("row_unweighted_bases", "column_unweighted_bases", "table_unweighted_bases",
+                        "rows_base", "columns_base")}
+
+
+def gen_block_case(rng, k):
+    """CAT / MR slices (2-D, 3-D) and CAT strands whose categorical dimensions carry subtotal
+    insertions, differences included."""
+    r = rng.random()
+    if r < 0.15:
+        kinds = ["cat"]
+    else:
+        kinds = [rng.choice(["cat", "cat", "cat", "mr"]), rng.choice(["cat", "cat", "cat", "mr"])]
+        if "cat" not in kinds:
+            kinds[rng.randrange(2)] = "cat"
+        if r > 0.8:
+            kinds = [rng.choice(["cat", "mr"])] + kinds
+    vs = [cu.make_var(rng, "v%d" % n, kd) for n, kd in enumerate(kinds)]
+    for v in vs[-2:]:
+        if v.kind == "cat":
+            v.view_insertions = gen.random_insertions(rng, v, max_n=3, differences=True, stale=False)
+    sv = gen.Survey(vs, rng.choice([3, 8, 15, 25]), rng)
+    case = {"k": k, "shape_class": "base-blocks", "survey": cu.survey_to_json(sv),
+            "aliases": [v.alias for v in vs], "perm": None, "measures": ["count"], "numvar": None,
+            "valid_counts": False, "unavailable": [], "mask_size": 0, "ca_as_0th": False,
+            "base_blocks": True}
+    cu.finish_case(case)
+    return case
+
+
+def g_subpairs(ss):
+    return core.g_list(["(%s, %s)" % (core.g_list([core.g_nat(i) for i in a]),
+                                       core.g_list([core.g_nat(i) for i in b])) for a, b in ss])
+
+
+def block_jobs(case):
+    """-> (failures, jobs); a job = (term, expectation dict) for one partition and one weighting."""
+    res = impl.guarded(lambda: impl.cube(case["response"]).partitions)
+    if res[0] != "ok":
+        return [{"what": "exception", "impl": res[1:]}], []
+    fails, jobs = [], []
+    for k, p in enumerate(res[1]):
+        tn = type(p).__name__
+        if tn == "_Strand":
+            info = impl.guarded(lambda: (impl.dims_info(p),
+                                         [(list(map(int, s.addend_idxs)), list(map(int, s.subtrahend_idxs)))
+                                          for s in p._rows_dimension.subtotals],
+                                         list(p.row_order())))
+            if info[0] != "ok":
+                fails.append({"what": "subtotal-introspection", "impl": info[1:], "no_impl": True})
+                continue
+            (n, ns), subs, ro = info[1]
+            if ns == 0 or n == 0:
+                continue
+            for key, pub in (("w", "weighted_bases"), ("u", "unweighted_bases")):
+                r = impl.get(p, pub)
+                if r[0] != "ok":
+                    fails.append({"what": pub, "part": k, "impl": r[1:]})
+                    continue
+                b = impl.guarded(lambda: impl.blocks1d(r[1], ro, n, ns))
+                if b[0] != "ok":
+                    fails.append({"what": pub + ":blocks", "part": k, "impl": b[1:], "no_impl": True})
+                    continue
+                jobs.append(("r_strand_base_subtotals %s %s" % (core.g_vec(b[1][0]), g_subpairs(subs)),
+                             {"kind": "strand", "part": k, "what": pub, "subs": subs, "impl": b[1][1]}))
+            continue
+        if tn != "_Slice":
+            continue
+        info = impl.guarded(lambda: (impl.dims_info(p),
+                                     [(list(map(int, s.addend_idxs)), list(map(int, s.subtrahend_idxs)))
+                                      for s in p._dimensions[0].subtotals],
+                                     [(list(map(int, s.addend_idxs)), list(map(int, s.subtrahend_idxs)))
+                                      for s in p._dimensions[1].subtotals],
+                                     list(p.row_order()), list(p.column_order())))
+        if info[0] != "ok":
+            fails.append({"what": "subtotal-introspection", "impl": info[1:], "no_impl": True})
+            continue
+        (nr, nrs, nc, ncs), rsubs, csubs, ro, co = info[1]
+        if nrs + ncs == 0 or nr == 0 or nc == 0:
+            continue
+        for key, names in BLOCK_MEASURES.items():
+            blks, bad = [], False
+            for pub in names[:3]:
+                r = impl.get(p, pub)
+                if r[0] != "ok":
+                    fails.append({"what": pub, "part": k, "impl": r[1:]})
+                    bad = True
+                    break
+                b = impl.guarded(lambda: impl.blocks2d(r[1], ro, co, nr, nc, nrs, ncs))
+                if b[0] != "ok":
+                    fails.append({"what": pub + ":blocks", "part": k, "impl": b[1:], "no_impl": True})
+                    bad = True
+                    break
+                blks.append(b[1])
+            if bad:
+                continue
+            margins = []
+            for pub, order, n, ns in ((names[3], ro, nr, nrs), (names[4], co, nc, ncs)):
+                r = impl.get(p, pub)
+                if r[0] != "ok":
+                    fails.append({"what": pub, "part": k, "impl": r[1:]})
+                    margins.append(None)
+                    continue
+                a = np.asarray(r[1], dtype=float)
+                if a.ndim != 1:
+                    margins.append(None)       # 2-D fall-back: the blocks above cover it
+                    continue
+                b = impl.guarded(lambda: impl.blocks1d(a, order, n, ns))
+                margins.append(b[1][1] if b[0] == "ok" else None)
+            term = "r_base_blocks %s %s %s %s %s %s %s" % (
+                core.g_nat(nr), core.g_nat(nc), g_subpairs(rsubs), g_subpairs(csubs),
+                core.g_mat(blks[0][0][0]), core.g_mat(blks[1][0][0]), core.g_mat(blks[2][0][0]))
+            jobs.append((term, {"kind": "slice", "part": k, "names": names, "blocks": blks,
+                                "margins": margins, "rsubs": rsubs, "csubs": csubs}))
+    return fails, jobs
+
+
+def compare_blocks(toks, exp):
+    d = core.Dec(toks)
+    fails = []
+    if exp["kind"] == "strand":
+        model = d.vec()
+        assert d.done()
+        if not core.close_vec(exp["impl"], model):
+            fails.append({"what": exp["what"] + ":subtotal-values", "part": exp["part"], "impl": exp["impl"],
+                          "model": model, "subtotals": exp["subs"], "oracle": "model"})
+        return fails
+    for n, pub in enumerate(exp["names"][:3]):
+        mcols, mrows, minter = d.mat(), d.mat(), d.mat()
+        blk = exp["blocks"][n]
+        for what, got, model in (("subtotal-columns", blk[0][1], mcols), ("subtotal-rows", blk[1][0], mrows),
+                                 ("intersections", blk[1][1], minter)):
+            if not core.close_mat(got, model):
+                # an (nr, 0) / (0, nc) block decodes as rows of nothing / no rows: compare sizes loosely
+                if sum(len(r) for r in got) == 0 and sum(len(r) for r in model) == 0:
+                    continue
+                fails.append({"what": "%s:block:%s" % (pub, what), "part": exp["part"], "impl": got,
+                              "model": model, "row_subtotals": exp["rsubs"], "column_subtotals": exp["csubs"],
+                              "oracle": "model"})
+    for pub, got in zip(exp["names"][3:], exp["margins"]):
+        model = d.vec()
+        if got is not None and not core.close_vec(got, model):
+            fails.append({"what": pub + ":subtotal-values", "part": exp["part"], "impl": got, "model": model,
+                          "row_subtotals": exp["rsubs"], "column_subtotals": exp["csubs"], "oracle": "model"})
+    assert d.done()
+    return fails
+
+
+def run_block_cases(cases, tag="blocks"):
+    """-> [(case, failures)], number of model blocks compared, seconds in Coq"""
+    all_jobs, out = [], []
+    for case in cases:
+        fails, jobs = block_jobs(case)
+        out.append((case, fails))
+        all_jobs.append(jobs)
+    flat = [t for jobs in all_jobs for (t, _e) in jobs]
+    results, coq_s = core.run_coq_cases(PID, BLOCK_IMPORTS, flat, shard=60, tag=tag) if flat else ([], 0.0)
+    pos = 0
+    for (case, fails), jobs in zip(out, all_jobs):
+        for (_t, exp), toks in zip(jobs, results[pos:pos + len(jobs)]):
+            fails.extend(compare_blocks(toks, exp))
+        pos += len(jobs)
+    return out, len(flat), coq_s
 
 
 # ------------------------------------------------------------------------------------
@@ -601,6 +783,18 @@ def run(tier, seed):
             ctx = {"what": f.get("what"), "class": cu.class_pair(case)}
             rep.violation("impl-vs-survey", cu.replayable(case), f, ctx,
                           failing_input=not f.get("no_impl"))
+    # ---- (e) blocks of the base measures: Model/BaseBlocks.v on the implementation's base block ----
+    n_block_cases = 140 if tier == "quick" else 2000
+    rng_b = random.Random(seed + 7)
+    block_cases = [gen_block_case(rng_b, k) for k in range(n_block_cases)]
+    block_res, n_block_terms, coq_b = run_block_cases(block_cases)
+    for case, fails in block_res:
+        rep.count_case(cu.replayable(case), True)
+        rep.dist("base-blocks-case:" + cu.class_pair(case))
+        for f in fails:
+            ctx = {"what": f.get("what"), "class": cu.class_pair(case), "leg": "base-blocks"}
+            rep.violation("impl-vs-model", cu.replayable(case), f, ctx, failing_input=not f.get("no_impl"))
+    rep.cov["base_block_terms_evaluated"] = n_block_terms
     rep.cov["rule"] = (
         "cases from random.Random(seed+2): same survey generator as C01 (all dimension kinds, class "
         "pairs, 1-D/2-D/3-D, weighted/unweighted, per-item MR missingness, missing categories "
@@ -611,14 +805,16 @@ def run(tier, seed):
         "distinct weighted and unweighted base of the case (eps = half the grid of the dyadic bases; at "
         "most %d thresholds per case). non-trivial = at least one respondent (resp. at least one "
         "subtotal); distinct by content hash" % MAX_THRESHOLDS)
-    rep.cov["coq_eval_seconds"] = round(coq_s + coq_m, 2)
+    rep.cov["coq_eval_seconds"] = round(coq_s + coq_m + coq_b, 2)
     rep.cov["mask_thresholds_evaluated"] = n_thresholds
     rep.cov["model_terms_evaluated"] = len(flat)
     rep.cov["subtotal_vectors_checked"] = n_subtotals
     rep.assumptions = [
         "survey-level theorems cover categorical (incl. enum) and MR dimensions; array class pairs by "
         "model-vs-implementation and the survey oracle only",
-        "subtotal blocks of the base measures are compared with the survey oracle, not modelled in Coq",
+        "subtotal blocks of the base measures: modelled (Model/Proportions.v row/col/table_base_blocks, "
+        "Model/BaseBlocks.v), tied to matrix/measure.py by the C02_gen_<Measure> obligations and compared here with "
+        "the implementation on the base block it reports; the survey oracle covers sum-only subtotals",
         "subtotal addend positions are read from the library's private Dimension.subtotals",
         "float64 vs exact rationals: relative tolerance 1e-9",
     ]
@@ -628,7 +824,11 @@ def run(tier, seed):
         "run only; its bases / margins / scalar table base of the "
         "nine class pairs (through the factory dict, inheritance flattened) and the stripe bases are ALSO tied "
         "to the text of matrix/cubemeasure.py and stripe/cubemeasure.py by the C02_gen_* obligations "
-        "(Proofs/GenAgreeBases.v)",
+        "(Proofs/GenAgreeBases.v); the blocks of the seven 2-D base measures, the marginals, the scalar table "
+        "base / range, the strand bases and the comparison of MinBaseSizeMask are tied to the text of "
+        "matrix/measure.py, stripe/measure.py, min_base_size_mask.py by the C02_gen_<Measure> / C02_gen_margin_* / "
+        "C02_gen_MinBaseSizeMask obligations (Proofs/GenAgreeBaseBlocks.v, GenAgreeMargins.v; trusted: "
+        "harness/translate/x_bases.py, Base/BasesExp.v's reading of numpy indexing / broadcast_to)",
         core.TRUSTED_BASE_TRANSLATOR])
 
 
@@ -640,6 +840,9 @@ def replay(path):
     cu.finish_case(case)
     if case.get("subtotals"):
         fails, _ = run_subtotal_case(case)
+    elif case.get("base_blocks"):
+        res, _n, _s = run_block_cases([case], tag="replay")
+        fails = [f for _c, fs in res for f in fs]
     elif case.get("mask_sweep"):
         io = cu.run_impl(case, cu.SLICE_BASE_NAMES, cu.STRAND_BASE_NAMES, masks=False)
         if "error" in io:
